@@ -202,11 +202,12 @@ def embeddings(draw, meta):
         "inner_before": draw(st.integers(0, 1)) if scope else 0,
         "inner_after": draw(st.integers(0, 1)) if scope else 0,
         "inner": draw(st.sampled_from([None, None] + meta["inner"])) if meta["inner"] else None,
+        "guard": draw(st.sampled_from([None, "after"] if meta["no_before"] else [None, "before", "after"])),
     }
 
 
 def is_identity(emb):
-    return emb is None or (not emb["scope"] and emb["k"] == 1 and not emb["tags"][0] and not emb.get("inner") and not (emb["before"] or emb["after"] or emb["inner_before"] or emb["inner_after"]))
+    return emb is None or (not emb["scope"] and emb["k"] == 1 and not emb["tags"][0] and not emb.get("inner") and not emb.get("guard") and not (emb["before"] or emb["after"] or emb["inner_before"] or emb["inner_after"]))
 
 
 # --------------------------------------------------------------------------------------------- running
@@ -326,7 +327,7 @@ EMBED_FEATURE = {
 def emb_class(emb):
     if is_identity(emb):
         return "identity"
-    return [emb["scope"], emb.get("inner"), emb["k"], bool(emb["before"]), bool(emb["after"]), bool(emb["inner_before"] or emb["inner_after"]), [bool(t) for t in emb["tags"]]]
+    return [emb["scope"], emb.get("inner"), emb["k"], bool(emb["before"]), bool(emb["after"]), bool(emb["inner_before"] or emb["inner_after"]), [bool(t) for t in emb["tags"]], emb.get("guard")]
 
 
 def check(case) -> Case:
@@ -396,7 +397,7 @@ def check(case) -> Case:
                     raise runner.HarnessError(f"C19 embedding produced invalid Python for {entry['id']}: {exc}\n" + "\n".join(out))
     observed2, anomalies2 = run_tool(entry, {f["path"]: "\n".join(f["lines"]) + "\n" for f in efiles})
     labels += [f"scope={'>'.join(emb['scope']) or 'module'}", f"k={emb['k']}", "renamed" if renamed else "not-renamed",
-               "filler" if (emb["before"] or emb["after"] or emb["inner_before"] or emb["inner_after"]) else "no-filler", "embedded"]
+               "filler" if (emb["before"] or emb["after"] or emb["inner_before"] or emb["inner_after"]) else "no-filler", "guard-" + str(emb.get("guard")), "embedded"]
     if inner_applied:
         labels.append(f"inner-block={emb['inner']}")
     detail_base = {"entry": entry["id"], "doc": entry["doc"], "heading": entry["fences"][0]["heading"], "role": entry["role"], "embedding": emb,
